@@ -12,6 +12,10 @@ for create, named create, remove, rename, set/remove character data, set attribu
 insert/remove text item, deep copy, add_to_file, remove_from_file and set_version; a load that the MODEL rejects (tokenizer or
 parser error, duplicate file name, a path with two kinds of element) leaves the world as it was (`C11_rejected_load`); a merge that
 fails half way does NOT in the library (known finding c11:failed-load-partial-merge) and is outside the model.
+The same for the step function itself (`C11_every_core_operation`): whichever of the seventeen core operations of
+`Model/Step.lean` the driver is asked to perform (new model, create_file, create / create_named, remove, set / remove
+character data, the attribute calls, comment, text items, add_to_file, remove_from_file, remove_file, set_version), in ANY
+world, a refusal comes with the world unchanged and is printed as `err`.
 Not covered by a theorem, and said so: `set_reference_target` and `move_element_here` are the two
 places where the Rust code mutates before its last fallible step (DEST attribute and reverse map
 before the final `set_character_data`; unlinking before `make_unique_item_name`); the model reproduces
@@ -23,6 +27,7 @@ import AutosarVerif.Lemmas.WorldOps
 import AutosarVerif.Lemmas.FileOps
 import AutosarVerif.Lemmas.Compat
 import AutosarVerif.Model.Load
+import AutosarVerif.Lemmas.StepFrame
 
 namespace AV.C11
 open AV.W
@@ -79,5 +84,10 @@ theorem C11_rejected_load (nmAutosar : Nat) (w : World) (k : Nat) (name : Bytes)
 /-! non-vacuity: on the empty world every one of these calls does answer `err` -/
 example : (opCreate S V { models := [], nextId := 0, nextFile := 0, dead := [] } 0 0 none).2 = .err := by
   simp [opCreate, locate]
+
+/-- failed operations have no effect, for every operation of the step function and every world -/
+theorem C11_every_core_operation (rootAttrs : List (Nat × CDv)) (w : World) (op : Op) (h : opRefuses S V w op) :
+    (applyOp S V rootAttrs w op).1 = w ∧ (applyOp S V rootAttrs w op).2 = "err" :=
+  ⟨applyOp_err_frame S V rootAttrs w op h, applyOp_answer_err S V rootAttrs w op h⟩
 
 end AV.C11
